@@ -52,6 +52,15 @@
    B's pushes overwrite A's pending delete list between A's collect and A's delete steps.  Do cannot be split in the
    real code, so the binding is a concurrent run: N >= 4 real instances from one Config, each on its own documents.
 
+   Names.  Keep / Remove / Norm use member names only through EQUALITY: for every injective renaming rho of the
+   names, Keep(rho P, rho d) = rho Keep(P, d) (lemma RenameInvariant, checked by TLC for two permutations of the
+   names, also for the transcriptions).  Hence the small alphabet stands for any names: the replay harness runs the
+   cases again with name tables whose names have the lengths 1, 7, 8, 31, 32, 63, 64, 65, 127, 128, 255, 256, 1000
+   (two names of equal length that differ in the last byte, one equal to them up to that byte and longer, a dotted
+   one, one that differs in the first byte).  Mechanism switch M_NamesComparedWhole = TRUE (the code: map lookup /
+   string comparison of the whole name); the mutant FALSE = "a name of NameW or more characters is never found among
+   the configured names" must be REJECTED by TLC (FieldSelect_mutant_names.cfg).
+
    One state = one CASE (family, document, selector list); the case is the only variable.               *)
 EXTENDS Integers, Sequences, FiniteSets, TLC, Json
 
@@ -61,7 +70,9 @@ CONSTANTS Fams,          \* sequence of scope families, see QuickFams / Thorough
           Cap,           \* initial capacity of one per-depth delete buffer (100 in the code; small here)
           M_DepthBuffersDisjoint,  \* mechanism (TRUE = the code): every depth buffer has its own backing array
           M_AllDocumentKindsFiltered,  \* mechanism (TRUE = the code): Do filters every event that carries a document
-          M_BuffersPerInstance     \* mechanism (TRUE = the code): every plugin instance allocates its own depth buffers
+          M_BuffersPerInstance,    \* mechanism (TRUE = the code): every plugin instance allocates its own depth buffers
+          M_NamesComparedWhole,    \* mechanism (TRUE = the code): a member name is looked up by its whole value
+          NameW                    \* the mutant ~M_NamesComparedWhole never finds names of NameW or more characters
 
 VARIABLES cs             \* [fam, doc, sels]; sels = <<>> while the selector list is not chosen yet
 
@@ -234,6 +245,8 @@ BufPush(B, i, k) ==          \* p.fieldsDepthSlice[i-1] = append(p.fieldsDepthSl
          ELSE [B EXCEPT !.s[i] = [sh |-> FALSE, n |-> 0, own |-> Append(BufRead(B, i), k)]]   \* append reallocates
 BufReset(B, i) == IF B.s[i].sh THEN [B EXCEPT !.s[i].n = 0] ELSE [B EXCEPT !.s[i].own = <<>>]   \* buf = buf[:0]
 BufsEmpty(B) == \A i \in 1..Len(B.s) : BufRead(B, i) = <<>>
+\* `childNode, ok := fpNode.children[eventField]`
+NameFound(k, Q) == k \in Heads(Q) /\ (M_NamesComparedWhole \/ Len(KeyChars(k)) < NameW)
 RECURSIVE Trav(_, _, _, _, _)
 RECURSIVE TravLoop(_, _, _, _, _, _, _)
 \* one iteration of `for _, node := range eventNode.AsFields()`; f = members (values already rewritten by recursion)
@@ -241,7 +254,7 @@ TravLoop(sw, Q, f, i, depth, bufs, pres) ==
   IF i > Len(f) THEN [f |-> f, bufs |-> bufs, pres |-> pres]
   ELSE LET k == f[i][1]
            push(b) == BufPush(b, depth + 1, k)
-       IN IF k \in Heads(Q)
+       IN IF NameFound(k, Q)
             THEN IF Sub(Q, k) = {}
                    THEN TravLoop(sw, Q, f, i + 1, depth, bufs, TRUE)            \* target member: preserved as a whole
                    ELSE LET c == Trav(sw, Sub(Q, k), f[i][2], depth + 1, bufs)
@@ -359,6 +372,24 @@ ImplFaithful(k, r, mk, mr) == /\ Canon(mk) = Canon(k)
 \* the plugin instance is reused for the next event: every depth buffer is empty again after Do
 BuffersClean(run) == BufsEmpty(run.bufs)
 
+\* lemma: names matter only through equality.  Two permutations of the names 1..5 (the marker names stay).
+Rho(n, k) == IF k \notin 1..5 THEN k
+             ELSE IF n = 1 THEN (CASE k = 1 -> 4 [] k = 4 -> 1 [] k = 2 -> 5 [] k = 5 -> 2 [] k = 3 -> 3)
+             ELSE (k % 5) + 1
+RECURSIVE Ren(_, _)
+Ren(n, v) == IF v.f = <<>> THEN v
+             ELSE [v EXCEPT !.f = [i \in 1..Len(v.f) |-> <<(IF IsObj(v) THEN Rho(n, v.f[i][1]) ELSE v.f[i][1]), Ren(n, v.f[i][2])>>]]
+RenPath(n, p) == [i \in 1..Len(p) |-> Rho(n, p[i])]
+RenList(n, l) == [i \in 1..Len(l) |-> RenPath(n, l[i])]
+RenameInvariant(k, r, mk, mr, list, d) ==
+  \A n \in {1, 2} :
+    LET P2 == {RenPath(n, p) : p \in SeqSet(list)}
+        d2 == Ren(n, d)
+    IN /\ Keep(P2, d2) = Ren(n, k)
+       /\ Remove(P2, d2) = Ren(n, r)
+       /\ (n = 1 => /\ ImplKeep(D_SwapDelete, RenList(n, list), d2) = Ren(n, mk)
+                     /\ ImplRemove(D_SwapDelete, RenList(n, list), d2) = Ren(n, mr))
+
 \* lemma: one never-selected member or two of them at the same place - Keep / Remove commute with the widening
 RECURSIVE Widen2(_)
 RECURSIVE Widen2Fields(_)
@@ -405,6 +436,7 @@ AllInv ==
        /\ Named("ImplFaithful", ImplFaithful(k, r, mk, mr))
        /\ Named("BuffersClean", BuffersClean(run))
        /\ Named("WidthIndependent", WidthIndependent(k, r, P, d))
+       /\ Named("RenameInvariant", RenameInvariant(k, r, mk, mr, list, d))
        /\ PrintT("C18 " \o ToJson(ExportRec(d, list, k, r, mk, mr)))
 
 \* the property the spec mutant ~M_DepthBuffersDisjoint must violate (plain invariant, so TLC prints the case)
@@ -423,7 +455,7 @@ TravOpsLoop(Q, f, i, depth, path, ops, pres) ==
   IF i > Len(f) THEN [ops |-> ops, pres |-> pres]
   ELSE LET k == f[i][1]
            push == BufOp("push", depth + 1, k, <<>>, FALSE)
-       IN IF k \in Heads(Q)
+       IN IF NameFound(k, Q)
             THEN IF Sub(Q, k) = {}
                    THEN TravOpsLoop(Q, f, i + 1, depth, path, ops, TRUE)
                    ELSE LET c == TravOps(Sub(Q, k), f[i][2], depth + 1, Append(path, k))
